@@ -36,7 +36,7 @@ def producing(rng, c, others):
         ch = rng.choice(['copy', 'single', 'scov', 'fracdet', 'deg', 'upg', 'pack', 'mask'])
     else:
         ch = rng.choice(['copy', 'sop', 'mask', 'astype', 'pack', 'scov', 'fracdet', 'deg', 'degsame', 'degw', 'upg',
-                         'mop', 'moc'])
+                         'mop', 'moc', 'write'])
     like = c
     if ch == 'copy':
         ln = 'copy a r=res'
@@ -89,6 +89,9 @@ def producing(rng, c, others):
                         else ['or_union', 'and_intersection', 'xor_union'])
         ln = 'mop r=res name=%s maps=a,b' % nm
         args.append('b')
+    elif ch == 'write':
+        ln = 'write a f=f1 compress=%s' % rng.choice('01')
+        like = None
     else:
         ln = 'moc a f=f1'
         like = None
@@ -102,6 +105,8 @@ def histories(rng, tier):
         c = gen.rand_cfg(rng, max_npix=768, name='a', min_delta=0)
         b = twin(c, 'b')
         h = [c.line(), b.line()]
+        if rng.random() < 0.5:
+            h.append('meta a k=AKEY v=%d' % rng.randint(1, 99))
         focus = rng.sample(range(c.ncov), min(c.ncov, 3))
         for _ in range(rng.randint(1, 4)):
             h.append(gen.upd_line(rng, c, focus=focus))
@@ -116,8 +121,8 @@ def histories(rng, tier):
             # weight map with the same valid set: built from a copy converted to float
             h += ['astype a r=w dtype=f8']
         exports = ['state %s' % x for x in args]
-        h += exports + ['nvalid a', ln] + exports + ['nvalid a']
-        if ch != 'moc':
+        h += exports + ['nvalid a', 'getmeta a k=AKEY', ln] + exports + ['nvalid a', 'getmeta a k=AKEY']
+        if ch not in ('moc', 'write'):
             h += ['state res', 'info res']
             # phase 1: mutate / grow the result, re-read the arguments
             if like is not None:
